@@ -404,7 +404,24 @@ func (h harness) seq(r *vx.Run) *vx.Seq[*sys] {
 			}
 			before := len(mvx.Dump(s.st.GetDB()))
 			live := s.reachable() // every record the retained states reference, before the run
+			dbg := os.Getenv("C05_DEBUG") != ""
+			if dbg {
+				fmt.Println("---- database before prune at height", s.tip)
+				for _, l := range mvx.Dump(s.st.GetDB()) {
+					fmt.Printf("   %q\n", l)
+				}
+				for _, e := range s.retained() {
+					fmt.Printf("   retained height %d root %x content %v\n", e.height, e.root, e.content)
+				}
+			}
 			perr := vx.Catch(func() { mavldb.PruningTree(s.st.GetDB(), s.tip, s.st.VerifTreeCfg()) })
+			if dbg {
+				for k := range live {
+					if v, err := s.st.GetDB().Get([]byte(k)); err != nil || len(v) == 0 {
+						fmt.Printf("---- live record removed: %q\n", k)
+					}
+				}
+			}
 			mavldb.VerifSetPruning(true)
 			if perr != "" {
 				return s.classify("prune-panics", perr, s.cur())
